@@ -230,10 +230,14 @@ package graphsync
 //@   promises result {C09} -- the returned channel always gets exactly one answer: at once when there is nothing to cancel, else from the goroutine that cancels
 //@   requires ctx != nil
 //@   modifies c.requestID
-//@   guarantee [forgets-request] (self.requestID == nil || self.requestID == old(self.requestID)) && self.requesterCancelled == old(self.requesterCancelled) &&
-//@       self.isOpen == old(self.isOpen)
+//@   ensures [forgets-request] {C10,C09} (old(c.requesterCancelled) || old(c.requestID) == nil) ? c.requestID == old(c.requestID) : c.requestID == nil
+//@       -- a live request is forgotten before the (asynchronous) graphsync cancel is issued; nothing changes when there is none or the requester cancelled it
 //@   locked c.lk -- "must be called under the lock"
 //@ func (*graphsync.dtChannel).open {C20}
+//@   ensures [previous-request-cancelled-first] {C10} all(GraphExchange.Request, c.requestID == nil || c.requesterCancelled)
+//@       -- when the new graphsync request is issued the channel has no live request of its own: it was cancelled (and forgotten) first, or the requester had cancelled it
+//@   ensures [one-request] {C10} calls(GraphExchange.Request) <= 1 && all(GraphExchange.Request, $2 == dataSender && $3 == root && $4 == stor)
+//@   ensures [opened-means-tracked] {C10,C16} err == nil ==> result0 != nil && c.isOpen && c.requestID != nil && (*result0).channelID == chid && calls(GraphExchange.Request) == 1
 //@   requires ctx != nil
 //@   modifies c.completed, c.isOpen, c.requestID
 //@   acquires {C20} graphsync.dtChannel.lk
@@ -251,8 +255,14 @@ package graphsync
 //@   acquires {C20} graphsync.dtChannel.lk
 //@   cancellable ctx
 //@ func (*graphsync.dtChannel).pause {C20}
+//@   ensures [pauses-the-live-request] {C11} c.requestID != nil && !c.requesterCancelled ==> calls(GraphExchange.Pause) == 1 && all(GraphExchange.Pause, $2 == *c.requestID) && result == ret(GraphExchange.Pause, 0)
+//@   ensures [nothing-to-pause] {C11} c.requestID == nil || c.requesterCancelled ==> never(GraphExchange.Pause) && result == nil
 //@   acquires {C20} graphsync.dtChannel.lk
 //@ func (*graphsync.dtChannel).resume {C20}
+//@   ensures [resumes-the-live-request] {C11} c.requestID != nil && !c.requesterCancelled && calls(ToExtensionData) == (msg != nil ? 1 : 0) && (msg != nil ==> ret(ToExtensionData, 1) == nil) ==>
+//@       calls(GraphExchange.Unpause) == 1 && all(GraphExchange.Unpause, $2 == *c.requestID) && result == ret(GraphExchange.Unpause, 0) && c.xferStarted
+//@   ensures [queued-while-requester-away] {C10} c.requestID != nil && c.requesterCancelled ==> never(GraphExchange.Unpause)
+//@   ensures [cancelled-channel] {C11} c.requestID == nil ==> never(GraphExchange.Unpause) && never(ToExtensionData) && result == nil
 //@   modifies c.pendingExtensions, c.xferStarted
 //@   acquires {C20} graphsync.dtChannel.lk
 //@ func (*graphsync.dtChannel).gsReqOpened {C16,C20}
